@@ -60,7 +60,7 @@ def translate_job(job):
     return out
 
 
-def judge(pid, rep, results, sc, maxbits=10, extra_cov=None):
+def judge(pid, rep, results, sc, maxbits=11, extra_cov=None):
     """shared by C01 / C07 / C08: build cases, run TLC, classify"""
     cases, meta = [], {}
     st = {}
@@ -123,7 +123,7 @@ def judge(pid, rep, results, sc, maxbits=10, extra_cov=None):
 def run(pid):
     T0 = Timer()
     t = tier()
-    rep = Report("C01", "translation_validation")
+    rep = Report(pid, "translation_validation")
     srcs = progs.corpus("C01", t, seed())
     jobs = [{"src": s["src"], "origin": s["origin"], "timeout": 30} for s in srcs]
     results = run_jobs(translate_job, jobs)
